@@ -224,7 +224,9 @@ pub fn random<const N: usize, P: Pad>(ctx: &mut Ctx) {
                 }
                 let lay = measured_layout(h.buf_ref(), &pre);
                 let mut fault = None;
-                if with_faults && rng.chance(1, 12) {
+                // no fault is injected into a history that has already deviated: whatever a fault
+                // would show there could not be told apart from the earlier defect
+                if with_faults && ctx.total_reports == reports_at_start && rng.chance(1, 12) {
                     let ks = fault_kinds_for(&op);
                     if !ks.is_empty() {
                         fault = Some((*rng.pick(ks), 1 + rng.below(3) as u32));
